@@ -27,6 +27,7 @@ DRIVERS = {
     'smc-thr': ('smc', 'M1c', 2, 3, {'thresholds': [1.5, 0.8]}),
     'smc-quant': ('smc', 'M1c', 2, 3, {'quantiles': [0.5, 0.5]}),
     'smc-thr3': ('smc', 'M1c', 2, 2, {'thresholds': [2.0, 1.0, 0.6]}),
+    'adsmc': ('adsmc', 'Madapt', 2, 2, {'rounds': 2, 'quantile': 0.5}),
     'rej-nsim-8b': ('rej', 'M1', 1, 3, {'n_sim': 8}),
     'rej-thr-8b': ('rej', 'M1', 1, 3, {'threshold': 0.5}),
 }
@@ -50,11 +51,18 @@ def make_body(case):
         if kind == 'rej':
             s = elfi.Rejection(m, dname, output_names=list(extras), batch_size=bs, seed=seed,
                                max_parallel_batches=mpb)
+        elif kind == 'adsmc':
+            s = elfi.AdaptiveDistanceSMC(m, dname, output_names=list(extras), batch_size=bs, seed=seed,
+                                         max_parallel_batches=mpb)
         else:
             s = elfi.SMC(m, dname, output_names=list(extras), batch_size=bs, seed=seed,
                          max_parallel_batches=mpb)
         eff_mpb = mpb or cores
-        cl.state_fn = lambda c, where: sampler_state(s, c, where)
+        # the adaptive distance node of the sampler's model copy changes while the run proceeds: models are then
+        # part of the canonical state at every choice point (no per-object digest caching for them)
+        imm = ('Sample', 'SmcSample', 'ModelPrior') if kind == 'adsmc' else None
+        cl.state_fn = (lambda c, where: sampler_state(s, c, where, immutable_types=imm)) if imm else \
+            (lambda c, where: sampler_state(s, c, where))
         consumed = []
         orig_update = s.update
 
@@ -67,7 +75,7 @@ def make_body(case):
         obs = {
             'outputs': out, 'threshold': res.threshold, 'n_sim': res.n_sim, 'n_batches': res.n_batches,
         }
-        if kind == 'smc':
+        if kind in ('smc', 'adsmc'):
             obs['pops'] = [({k: np.asarray(v) for k, v in p.outputs.items()}, np.asarray(p.weights), p.threshold,
                             p.n_sim, np.asarray(p.cov)) for p in res.populations]
             obs['weights'] = np.asarray(res.weights)
@@ -357,6 +365,9 @@ def run(ctx):
     for d in ('rej-thr', 'rej-thr-rare', 'rej-nsim-odd'):
         for s_ in (seed0 + 1, seed0 + 2):
             cases.append({'kind': 'tree', 'driver': d, 'mpb': 3, 'seed': s_, 'prune': True})
+    # adaptive-distance SMC (the distance node of the sampler's model adapts between rounds)
+    for mpb in (1, 2) if q else (1, 2, 3):
+        cases.append({'kind': 'tree', 'driver': 'adsmc', 'mpb': mpb, 'seed': seed0, 'prune': True})
     # cores decide when max_parallel_batches is not given
     for d in ('rej-nsim', 'rej-thr'):
         for cores in (1, 2, 3):
@@ -430,6 +441,6 @@ def run(ctx):
         '(shared) and pickled isolation; no task failures',
         'visited-state pruning merges executions whose canonical (sampler, client, pending call) state is equal; '
         'cross-checked against the unpruned tree for mpb=2 drivers (same outcome sets)',
-        'AdaptiveThresholdSMC and the dask/ipyparallel clients are not explored',
+        'AdaptiveDistanceSMC is explored with one driver; AdaptiveThresholdSMC and the dask/ipyparallel clients are not',
         'result equality is bitwise on outputs, thresholds, n_sim, n_batches and SMC population tables',
     ]
